@@ -57,9 +57,22 @@ def observe():
             "probe": [o + ("+ran" if r else "") for o, r in pr]}
 
 
-def replay(hist):
+def relaxed_load():
+    """the explicit loader with a relaxed threshold on the very bytes of the flagged probe: a caller's own decision for that one
+    call; it is not part of the hook life cycle and changes nothing about what an armed check or a context refuses later"""
+    from fickling.analysis import Severity
+    for data in (FLAGGED, MLONLY, ADDPROBE):
+        try:
+            fickling.load(io.BytesIO(data), max_acceptable_severity=Severity.OVERTLY_MALICIOUS)
+        except Exception:  # noqa: BLE001
+            pass
+
+
+def replay(hist, relaxed=0):
     reset()
     stack, steps, pending = [], [], []
+    if relaxed:
+        relaxed_load()
     for op in hist:
         exc = ""
         try:
@@ -90,6 +103,8 @@ def replay(hist):
                 stack.pop().__exit__(ValueError, e, None)
         except Exception as e:  # noqa: BLE001
             exc = type(e).__name__
+        if relaxed == 2:
+            relaxed_load()
         st = observe()
         st["op"] = op
         st["exc"] = exc
@@ -100,7 +115,7 @@ def replay(hist):
 
 def main():
     hists = json.load(open(sys.argv[1]))
-    out = [{"id": i, "hist": h, "steps": replay(h)} for i, h in enumerate(hists)]
+    out = [{"id": i, "hist": h, "steps": replay(h, relaxed=i % 3)} for i, h in enumerate(hists)]
     json.dump(out, open(sys.argv[2], "w"))
 
 
